@@ -51,6 +51,11 @@ def _rp(enc, r, s, n):
             "print('s > n//2:', s > n // 2, ' float compare s > n/2:', s > n / 2)\n" % (r, s, n, enc, enc))
 
 
+class _IntSub(int):
+    """An integer type that is not exactly int and changes nothing."""
+    __slots__ = ()
+
+
 def check(ctx, n, r, s, tag, detail=True):
     want_s = min(s, n - s)
     half = n // 2
@@ -97,6 +102,12 @@ def check(ctx, n, r, s, tag, detail=True):
             elif style == 3:
                 out = canon(r=r, s=s, order=n)
                 ctx.count("keyword_calls")
+            elif _NOISE["i"] % 3 == 2:
+                # integers that are not exactly `int`: a trivial subclass (what IntEnum members, numpy-free bigint wrappers or a curve object
+                # defined by an application hand over) for the order, for s, or for all three
+                wh = (_NOISE["i"] // 3) % 3
+                out = canon(_IntSub(r) if wh == 2 else r, _IntSub(s) if wh >= 1 else s, _IntSub(n) if wh != 1 else n)
+                ctx.count("int_subclass_calls")
             else:
                 out = canon(r, s, n)
             want = plain(r, want_s, n)
